@@ -24,7 +24,9 @@ seeded = ["| seeded change | breaks | needs | caught by | first failure |\n|---|
 for m in sorted(glob.glob(os.path.join(root, 'seeded', '*', 'meta.json'))):
     d = json.load(open(m))
     name = os.path.basename(os.path.dirname(m))
-    res = d.get('detection', {})
+    res = dict(d.get('detection', {}))
+    for k, v in d.get('detection_after_strengthening', {}).items():
+        res[k] = {'result': res.get(k, {}).get('result', '?') + ' -> ' + v.get('result', ''), 'detail': v.get('detail', '')}
     caught = ", ".join(f"{k}: {v.get('result','?')}" for k, v in res.items()) or "not run"
     first = "; ".join(v.get('detail', '')[:120] for v in res.values() if v.get('detail'))
     seeded.append(f"| {name} | {d.get('property')} | {str(d.get('needs',''))[:160]} | {caught} | {first} |")
